@@ -264,10 +264,55 @@ def body_shard(arg) -> core.Part:
                                       f"print(repr(env.from_string({src!r}).render()))\n"
                                       f"print('expected', {exp!r})\n",
                         })
+            if "\n" in body and nfr <= full_upto:
+                _body_newline_seq(p, body)
             p.sample({"part": "b", "body": body, "comment_source": g.to_source((PRE, ("comment", "", "", body), POST)),
                       "raw_source": g.to_source((PRE, ("raw", "", "", body, "", ""), POST))}, cap=1)
     p.count("bodies", nbodies)
     return p
+
+
+NLSEQ_VARIANTS = [("\r\n", "\n"), ("\r", "\n"), ("\r\n", "\r\n"), ("\r", "\r")]  # (newline_sequence, source form)
+
+
+def _body_newline_seq(p, body):
+    """bodies containing a line break under the non-default newline sequences: every line break of the output,
+    inside a raw body as well as around it, is the configured sequence."""
+    from jinja2 import Environment
+
+    cases = [("comment", m) for m in (("", ""), ("-", "-"))] + [("raw", ("", or_, cl, "")) for or_, cl in RAW_INNER]
+    for kind, mods in cases:
+        if kind == "comment":
+            if not comment_ok(mods[0], body, mods[1]):
+                continue
+            tag = ("comment", mods[0], mods[1], body)
+        else:
+            tag = ("raw", mods[0], mods[1], body, mods[2], mods[3])
+            if not raw_ok(tag):
+                continue
+        sk = (PRE, tag, POST)
+        src_n = g.to_source(sk)
+        for trim, lstrip in SET2:
+            exp_n = g.expected(sk, trim, lstrip)
+            for ns, form in NLSEQ_VARIANTS:
+                src = src_n.replace("\n", form)
+                exp = exp_n.replace("\n", ns)
+                p.evals += 1
+                try:
+                    got = Environment(trim_blocks=trim, lstrip_blocks=lstrip, newline_sequence=ns).from_string(src).render()
+                except Exception as e:  # noqa: BLE001
+                    got = ("exc", type(e).__name__, str(e))
+                p.sig((kind, mods, trim, lstrip, ns, form, _bshape(body)))
+                if got != exp:
+                    p.violation(f"C11/{kind}-body/newline_sequence={ns!r}/{'|'.join(mods)}/trim={int(trim)},lstrip={int(lstrip)}", {
+                        "msg": f"source {src!r} newline_sequence={ns!r} trim_blocks={trim} lstrip_blocks={lstrip}: "
+                               f"got {got!r}, expected {exp!r}",
+                        "source": src, "body": body, "got": repr(got), "expected": exp, "size": len(src),
+                        "script": "import jinja2\n"
+                                  f"env = jinja2.Environment(trim_blocks={trim}, lstrip_blocks={lstrip}, newline_sequence={ns!r})\n"
+                                  f"print(repr(env.from_string({src!r}).render()))\n"
+                                  f"print('expected', {exp!r})\n",
+                    })
 
 
 def _bshape(body):
@@ -431,6 +476,8 @@ def run(ctx: core.Ctx):
         "c_finalize_variants": ["none", "plain", "pass_environment", "pass_context", "pass_eval_context"],
         "c_finalize_max_symbols": FIN_MAX_SYMBOLS,
         "c_modes": [m[0] for m in ESC_MODES], "c_placements": ["text", "raw"], "c_env_autoescape": [False, True],
+        "b_newline_sequence": "bodies containing a line break, up to the full-grid length: newline_sequence \\r\\n and \\r x "
+                              "source forms x 2 comment / 6 raw modifier combinations x 2 settings",
         "b_grid_longest": "comment: 3 modifier pairs x 2 settings; raw: 6 inner modifier combinations x 2 settings",
     }
     ctx.cov["shards_completed"] = len(shards) + len(bshards) + len(eshards)
